@@ -24,7 +24,14 @@
      (iv)  the data file stays below 2^63 bytes (offsets are stored as BIGINT);
    and the observed table name n is not sys_pages / sys_schema (the specification has no
    catalog tables). No hypothesis on table / column name lengths or row sizes: an oversized
-   catalog or data row makes its statement fail, which is covered by (i). *)
+   catalog or data row makes its statement fail, which is covered by (i). Statements that
+   target sys_pages / sys_schema need no exclusion (the code refuses them before any change).
+
+   Without (i), for ALL histories: C01_refines_partial_lax - the contents equal those of some
+   database the specification allows when each FAILED statement may leave a row-operation
+   prefix (TableSpec.stmt_prefixes) behind; this is exactly what findings F11a-c do.
+   C01_refines_partial_all_succeed is the property text's own quantifier (every statement of
+   the history succeeded). C01_refines_partial_rep exposes the invariant itself. *)
 From Coq Require Import List NArith ZArith String Sorted Bool Lia.
 From Mkdb Require Import Spec.HistObs Proofs.TreeProofs Proofs.StoreInv Proofs.TupleProofs
   Proofs.RefineForest Proofs.RefineCodec Proofs.RefineRep Proofs.RefineCat Proofs.RefineDML
